@@ -35,6 +35,7 @@ func vpNot(a bool) bool
 func vpImplies(a, b bool) bool
 func vpIte(c bool, a, b int64) int64
 func vpYield(label string)
+func vpYieldLazy(label string, maxWait time.Duration) // parked until chosen at a store-visible point or maxWait elapsed
 func vpDelay(label string, lo, hi time.Duration)
 func vpNow() int64
 func vpEvent(kind string, args ...any)
